@@ -19,6 +19,8 @@ import (
 	"github.com/yandex/pandora/core/engine"
 	"github.com/yandex/pandora/core/schedule"
 
+	pkgerrors "github.com/pkg/errors"
+
 	"verif/harness/vkit"
 )
 
@@ -68,8 +70,12 @@ type Pool struct {
 	// FromConfig: the rps section is written as config (a list of mappings) and the schedule
 	// factory is the one the config decoder builds, as in a real run
 	FromConfig bool `json:"rps_from_config,omitempty"`
-	Procs        int       `json:"gomaxprocs"`
-	Seed         int64     `json:"seed"`
+	// GunTimeout: the creation of the only instance's gun fails with a timeout of its own (an error
+	// caused by context.DeadlineExceeded) while the run's context has a far deadline. The pool
+	// must not end normally then; if it does, the accounting below applies to it.
+	GunTimeout bool  `json:"gun_creation_times_out,omitempty"`
+	Procs      int   `json:"gomaxprocs"`
+	Seed       int64 `json:"seed"`
 }
 
 func genSched(rng *rand.Rand, depth int) SchedSpec {
@@ -247,13 +253,19 @@ func runPool(res *vkit.Result, p Pool) {
 	if p.Ramp {
 		startup = schedule.NewComposite(schedule.NewOnce(int64(p.Instances)), schedule.NewConst(5, 3*time.Second))
 	}
+	if p.GunTimeout {
+		plan.NewGunErrAt = 1 // call 0 is the engine's warm-up gun
+		plan.NewGunErr = pkgerrors.WithMessage(context.DeadlineExceeded, "connect to target")
+	}
 	m := vkit.NewMetrics()
 	eng := engine.New(vkit.NopLog(), m, engine.Config{Pools: []engine.InstancePoolConfig{{
 		ID: "p", Provider: prov, Aggregator: aggr, NewGun: plan.NewGun, RPSPerInstance: p.PerInstance,
 		NewRPSSchedule: newSched, StartupSchedule: startup, DiscardOverflow: p.Discard,
 	}}})
 	done := make(chan error, 1)
-	go func() { done <- eng.Run(context.Background()) }()
+	runCtx, runCancel := context.WithTimeout(context.Background(), time.Hour)
+	defer runCancel()
+	go func() { done <- eng.Run(runCtx) }()
 	var err error
 	select {
 	case err = <-done:
@@ -275,6 +287,12 @@ func runPool(res *vkit.Result, p Pool) {
 	}
 	fail := func(check, format string, a ...any) {
 		res.Violate("C03/"+class+"/"+check, fmt.Sprintf(format, a...), p)
+	}
+	if err != nil && p.GunTimeout {
+		// the pool did not end normally: nothing to account for
+		res.Count("pools_failed_on_gun_timeout", 1)
+		res.Eval(vkit.JSON(p), true)
+		return
 	}
 	if err != nil {
 		fail("run-error", "pool without injected faults ended with error: %v", err)
@@ -366,6 +384,8 @@ var seeds = []Pool{
 	{Instances: 5, PerInstance: false, RPS: SchedSpec{Kind: "once", N: 0}, Ammo: 3, AmmoClass: "T+N", Seed: 8},
 	{Instances: 4, PerInstance: true, RPS: SchedSpec{Kind: "composite", Parts: []SchedSpec{{Kind: "once", N: 5}}}, Ammo: 100, AmmoClass: "10T", FromConfig: true, Seed: 12},
 	{Instances: 3, PerInstance: true, RPS: SchedSpec{Kind: "composite", Parts: []SchedSpec{{Kind: "once", N: 3}, {Kind: "const", A: 0, DurMs: 100}, {Kind: "once", N: 2}}}, Ammo: 100, AmmoClass: "10T", FromConfig: true, Seed: 13},
+	{Instances: 1, PerInstance: false, RPS: SchedSpec{Kind: "once", N: 10}, Ammo: 100, AmmoClass: "10T", GunTimeout: true, Seed: 14},
+	{Instances: 1, PerInstance: false, RPS: SchedSpec{Kind: "const", A: 100, DurMs: 100}, Ammo: 4, AmmoClass: "T-1", GunTimeout: true, Seed: 15},
 	{Instances: 3, PerInstance: false, RPS: SchedSpec{Kind: "const", A: 20, DurMs: 3000}, Ammo: 12, AmmoClass: "ramp", Ramp: true, Seed: 9},
 	{Instances: 3, PerInstance: true, RPS: SchedSpec{Kind: "const", A: 20, DurMs: 3000}, Ammo: 12, AmmoClass: "ramp", Ramp: true, Seed: 10},
 	{Instances: 5, PerInstance: false, RPS: SchedSpec{Kind: "line", A: 10, B: 60, DurMs: 2000}, Ammo: 9, AmmoClass: "ramp", Ramp: true, ShotMaxUs: 2000, Seed: 11},
